@@ -99,6 +99,18 @@ struct Event {
     long who, out, val;
 };
 
+// a move-only payload that does not allocate
+struct MoveOnly {
+    int v;
+    explicit MoveOnly(int x) : v(x) {}
+    MoveOnly(MoveOnly &&o) noexcept : v(o.v) {}
+    MoveOnly &operator=(MoveOnly &&o) noexcept { v = o.v; return *this; }
+    MoveOnly(const MoveOnly &) = delete;
+    MoveOnly &operator=(const MoveOnly &) = delete;
+};
+static long to_long(int &x) { return x; }
+static long to_long(MoveOnly &x) { return x.v; }
+
 struct Ctx;
 struct CbSlot : malleable_awaiter {
     Ctx *c = nullptr;
@@ -110,12 +122,20 @@ struct Ctx {
     bool coro = false, heap = true;
     std::optional<future<int>> fi[NF];
     std::optional<future<void>> fv[NF];
+    std::optional<future<int &>> fr[NF];
+    std::optional<future<MoveOnly>> fm[NF];
     std::optional<promise<int>> pi[NF];
     std::optional<promise<void>> pv[NF];
+    std::optional<promise<int &>> pr[NF];
+    std::optional<promise<MoveOnly>> pm[NF];
+    int refstore[NF] = {};
     long fstate[NF] = {}, fty[NF] = {}, readers[NF] = {};
     mutex mx[NM];
     mutex::ownership own[NM];
     std::optional<generator<int>> gens[NG];
+    std::optional<generator<int, int>> gens2[NG];
+    long gkind[NG] = {};   // 0 none, 1 generator<int>, 2 generator<int,int>
+    int garg = 0;
     suspend_point<void> slots[NS];
     CbSlot cbs[NC];
     std::vector<Event> events;
@@ -140,8 +160,12 @@ struct Ctx {
 
 template <typename Fn>
 static void with_fut(Ctx &c, long f, Fn &&fn) {
-    if (c.fty[f] == 0) fn(*c.fi[f], c.pi[f]);
-    else fn(*c.fv[f], c.pv[f]);
+    switch (c.fty[f]) {
+        case 0: fn(*c.fi[f], c.pi[f]); break;
+        case 1: fn(*c.fv[f], c.pv[f]); break;
+        case 2: fn(*c.fr[f], c.pr[f]); break;
+        default: fn(*c.fm[f], c.pm[f]); break;
+    }
 }
 
 template <typename T>
@@ -150,7 +174,7 @@ static void read_future(future<T> &fut, long &out, long &val) {
     val = 0;
     try {
         if constexpr (std::is_void_v<T>) fut.value();
-        else val = fut.value();
+        else val = to_long(fut.value());
     } catch (const await_canceled_exception &) {
         out = 2;
     } catch (...) {
@@ -163,7 +187,7 @@ static void read_future(future<T> &fut, long &out, long &val) {
     long out = 0, val = 0;                                     \
     try {                                                      \
         if constexpr (std::is_void_v<T>) co_await fut;         \
-        else val = co_await fut;                               \
+        else val = to_long(co_await fut);                      \
     } catch (const await_canceled_exception &) {               \
         out = 2;                                               \
     } catch (...) {                                            \
@@ -190,6 +214,12 @@ static with_allocator<pool_storage, async<void>> locker_pool(pool_storage &, Ctx
     for (long i = 1; i <= k; i++) co_yield (int)(100 * g + i);
 static generator<int> gen_heap(long g, long k) { GEN_BODY }
 static with_allocator<pool_storage, generator<int>> gen_pool(pool_storage &, long g, long k) { GEN_BODY }
+// generator with an argument: the i-th value depends on the argument of the call that asked for it
+#define GEN2_BODY                     \
+    int a = co_yield nullptr;         \
+    for (long i = 1; i <= k; i++) a = co_yield (int)(100 * g + i + 1000 * a);
+static generator<int, int> gen2_heap(long g, long k) { GEN2_BODY }
+static with_allocator<pool_storage, generator<int, int>> gen2_pool(pool_storage &, long g, long k) { GEN2_BODY }
 
 // ---- callback awaiter ----
 static suspend_point<void> cb_fn(awaiter *me, void *) noexcept {
@@ -251,7 +281,7 @@ static void helper_main(int t) {
                 using T = typename std::decay_t<decltype(fut)>::value_type;
                 try {
                     if constexpr (std::is_void_v<T>) fut.wait();
-                    else val = fut.wait();
+                    else val = to_long(fut.wait());
                 } catch (const await_canceled_exception &) {
                     out = 2;
                 } catch (...) {
@@ -344,7 +374,7 @@ static void emit(Ctx &c, Step &s) {
 
 static bool inr(long i, long b) { return i >= 0 && i < b; }
 static bool how_ok(Ctx &c, long how, long s) { return how == 0 || (how == 1 && c.coro) || (how == 2 && inr(s, NS)); }
-static bool mode_ok(Ctx &c, long mode) { return mode == 0 || (mode == 1 && c.coro); }
+static bool mode_ok(Ctx &c, long mode) { return mode == 0 || ((mode == 1 || mode == 2) && c.coro); }
 
 // what to do with a suspend point produced by the step
 static void dispose(Ctx &c, Step &st, suspend_point<void> &&sp, long how, long s) {
@@ -364,6 +394,8 @@ static void start_coro(Ctx &c, async<void> &&a, long mode) {
     } else if (mode == 0) {
         auto sp = a.detach();
         sp.pop().resume();
+    } else if (mode == 2) {
+        a.detach();   // discarded under the active queue: the start is queued
     } else {
         c.pending.emplace(a.detach());
         c.await_ptr = &*c.pending;
@@ -380,12 +412,16 @@ static Step begin(Ctx &c, const std::vector<long> &op) {
     auto arity = [&](size_t k) { return op.size() == k; };
     switch (op[0]) {
         case 1: {  // FNew f ty
-            if (!arity(3) || !inr(op[1], NF) || !inr(op[2], 2) || c.fstate[op[1]] != 0) return rej();
+            if (!arity(3) || !inr(op[1], NF) || !inr(op[2], 4) || c.fstate[op[1]] != 0) return rej();
             long f = op[1];
             c.fty[f] = op[2];
             st.snap = am::snap();
-            if (op[2] == 0) c.fi[f].emplace();
-            else c.fv[f].emplace();
+            switch (op[2]) {
+                case 0: c.fi[f].emplace(); break;
+                case 1: c.fv[f].emplace(); break;
+                case 2: c.fr[f].emplace(); break;
+                default: c.fm[f].emplace(); break;
+            }
             c.fstate[f] = 1;
             return st;
         }
@@ -402,6 +438,7 @@ static Step begin(Ctx &c, const std::vector<long> &op) {
             long f = op[1], w = op[2], mode = op[3];
             st.snap = am::snap();
             c.readers[f]++;
+            if (mode == 2) st.sps = 1;
             with_fut(c, f, [&](auto &fut, auto &) {
                 if (c.heap) {
                     am::t_frame = true;
@@ -447,30 +484,45 @@ static Step begin(Ctx &c, const std::vector<long> &op) {
             return st;
         }
         case 6: {  // FResolve f kind how s v
-            if (!arity(6) || !inr(op[1], NF) || c.fstate[op[1]] != 2 || !inr(op[2], 4) || !how_ok(c, op[3], op[4]) ||
-                !(op[2] < 3 || op[3] == 0))
-                return rej();
-            long f = op[1], kind = op[2], how = op[3], s = op[4], v = op[5];
+            if (!arity(6) || !inr(op[1], NF) || c.fstate[op[1]] != 2 || !inr(op[2], 5) || op[3] < 0 || op[3] >= 20) return rej();
+            long f = op[1], kind = op[2], how = op[3], h = op[3] % 10, s = op[4], v = op[5];
+            bool csp = how != h;
+            if (!how_ok(c, h, s) || !(kind < 3 || how == 0)) return rej();
             st.snap = am::snap();
             c.fstate[f] = 3;
             with_fut(c, f, [&](auto &fut, auto &prom) {
                 using T = typename std::decay_t<decltype(fut)>::value_type;
-                if (kind == 3) {
-                    st.sps = c.readers[f];   // the suspend point is internal to ~promise: size = coroutines waiting
+                using P = std::decay_t<decltype(*prom)>;
+                if (kind >= 3) {
+                    // the suspend point is internal to the promise: its size = coroutine awaiters in the chain (diagnostic read)
+                    for (awaiter *a = fut._awaiter.load(); a && a != &awaiter::disabled && a != &awaiter::instance; a = a->_next)
+                        if (!a->_resume_fn) st.sps++;
                     st.res = 1;
-                    prom.reset();
+                    if (kind == 3) prom.reset();         // ~promise
+                    else {
+                        *prom = P();                     // move-assignment of an empty promise drops the old one
+                        prom.reset();
+                    }
                     return;
                 }
+                auto resolve = [&]() -> suspend_point<bool> {
+                    if (kind == 0) {
+                        if constexpr (std::is_void_v<T>) return (*prom)();
+                        else if constexpr (std::is_reference_v<T>) {
+                            c.refstore[f] = (int)v;
+                            return (*prom)(c.refstore[f]);
+                        } else if constexpr (std::is_same_v<T, MoveOnly>) return (*prom)(MoveOnly((int)v));
+                        else return (*prom)((int)v);
+                    } else if (kind == 1) return prom->set_exception(g_exc);
+                    else return (*prom)(drop);
+                };
                 auto run = [&](suspend_point<bool> sp) {
                     st.res = (bool)sp ? 1 : 0;
                     st.sps = (long)sp.size();
-                    dispose(c, st, std::move(static_cast<suspend_point<void> &>(sp)), how, s);
+                    dispose(c, st, std::move(static_cast<suspend_point<void> &>(sp)), h, s);
                 };
-                if (kind == 0) {
-                    if constexpr (std::is_void_v<T>) run((*prom)());
-                    else run((*prom)((int)v));
-                } else if (kind == 1) run(prom->set_exception(g_exc));
-                else run((*prom)(drop));
+                if (csp) run(coro_queue::create_suspend_point([&] { return (bool)resolve(); }));
+                else run(resolve());
                 prom.reset();
             });
             return st;
@@ -480,9 +532,22 @@ static Step begin(Ctx &c, const std::vector<long> &op) {
             long f = op[1];
             st.snap = am::snap();
             with_fut(c, f, [&](auto &, auto &prom) { prom.reset(); });
-            if (c.fty[f] == 0) c.fi[f].reset();
-            else c.fv[f].reset();
+            c.fi[f].reset();
+            c.fv[f].reset();
+            c.fr[f].reset();
+            c.fm[f].reset();
             c.fstate[f] = 0;
+            return st;
+        }
+        case 8: {  // PMove f
+            if (!arity(2) || !inr(op[1], NF) || c.fstate[op[1]] != 2) return rej();
+            st.snap = am::snap();
+            with_fut(c, op[1], [&](auto &, auto &prom) {
+                using P = std::decay_t<decltype(*prom)>;
+                P q(std::move(*prom));
+                *prom = std::move(q);
+                st.res = (bool)*prom ? 1 : 0;
+            });
             return st;
         }
         case 10: {  // MTry m
@@ -500,6 +565,7 @@ static Step begin(Ctx &c, const std::vector<long> &op) {
             if (!arity(4) || !inr(op[1], NM) || !mode_ok(c, op[3])) return rej();
             long m = op[1], w = op[2], mode = op[3];
             st.snap = am::snap();
+            if (mode == 2) st.sps = 1;
             if (c.heap) {
                 am::t_frame = true;
                 auto a = locker_heap(c, w, m);
@@ -547,38 +613,60 @@ static Step begin(Ctx &c, const std::vector<long> &op) {
             }
             return st;
         }
-        case 20: {  // GNew g k
-            if (!arity(3) || !inr(op[1], NG) || !inr(op[2], 9) || c.gens[op[1]]) return rej();
+        case 20: {  // GNew g k a
+            if (!arity(4) || !inr(op[1], NG) || !inr(op[2], 9) || !inr(op[3], 2) || c.gkind[op[1]]) return rej();
             long g = op[1], k = op[2];
             st.snap = am::snap();
             am::t_frame = true;
-            if (c.heap) c.gens[g].emplace(gen_heap(g, k));
-            else c.gens[g].emplace(gen_pool(g_pool, g, k));
+            if (op[3] == 0) {
+                if (c.heap) c.gens[g].emplace(gen_heap(g, k));
+                else c.gens[g].emplace(gen_pool(g_pool, g, k));
+            } else {
+                if (c.heap) c.gens2[g].emplace(gen2_heap(g, k));
+                else c.gens2[g].emplace(gen2_pool(g_pool, g, k));
+            }
             am::t_frame = false;
+            c.gkind[g] = 1 + op[3];
             return st;
         }
-        case 21: {  // GNext g how
-            if (!arity(3) || !inr(op[1], NG) || !(inr(op[2], 2) || (op[2] == 2 && c.coro)) || !c.gens[op[1]]) return rej();
+        case 21: {  // GNext g how arg
+            if (!arity(4) || !inr(op[1], NG) || !(inr(op[2], 2) || (op[2] == 2 && c.coro)) || !c.gkind[op[1]]) return rej();
             long g = op[1], how = op[2];
-            generator<int> &gen = *c.gens[g];
-            if (how == 1 && gen.done()) return rej();
+            bool done = c.gkind[g] == 1 ? c.gens[g]->done() : c.gens2[g]->done();
+            if (how == 1 && done) return rej();
             st.snap = am::snap();
-            if (how == 0) {
-                bool b = gen.next();
-                st.res = b ? gen.value() : -1;
-            } else if (how == 1) {
-                future<int> fut = gen();
-                bool b = fut.has_value();
-                st.res = b ? *fut : -1;
-            } else {
+            c.garg = (int)op[3];
+            if (how == 2) {
                 c.await_gen = g;
+            } else if (c.gkind[g] == 1) {
+                generator<int> &gen = *c.gens[g];
+                if (how == 0) {
+                    bool b = gen.next();
+                    st.res = b ? gen.value() : -1;
+                } else {
+                    future<int> fut = gen();
+                    bool b = fut.has_value();
+                    st.res = b ? *fut : -1;
+                }
+            } else {
+                generator<int, int> &gen = *c.gens2[g];
+                if (how == 0) {
+                    bool b = gen.next(c.garg);
+                    st.res = b ? gen.value() : -1;
+                } else {
+                    future<int> fut = gen(c.garg);
+                    bool b = fut.has_value();
+                    st.res = b ? *fut : -1;
+                }
             }
             return st;
         }
         case 22: {  // GDestroy g
-            if (!arity(2) || !inr(op[1], NG) || !c.gens[op[1]]) return rej();
+            if (!arity(2) || !inr(op[1], NG) || !c.gkind[op[1]]) return rej();
             st.snap = am::snap();
             c.gens[op[1]].reset();
+            c.gens2[op[1]].reset();
+            c.gkind[op[1]] = 0;
             return st;
         }
         case 30: {  // SpFlush s how
@@ -624,10 +712,15 @@ static bool cleanup_round(Ctx &c) {
     return changed;
 }
 static void cleanup_final(Ctx &c) {
-    for (long g = 0; g < NG; g++) c.gens[g].reset();
+    for (long g = 0; g < NG; g++) {
+        c.gens[g].reset();
+        c.gens2[g].reset();
+    }
     for (long f = 0; f < NF; f++) {
         c.fi[f].reset();
         c.fv[f].reset();
+        c.fr[f].reset();
+        c.fm[f].reset();
     }
     am::quiet q;
     c.events.clear();
@@ -644,10 +737,17 @@ static vh::tco driver_coro(Ctx &c, const vh::Case &cs) {
             c.do_pause = false;
             co_await cocls::pause();
         } else if (c.await_gen >= 0) {
-            generator<int> &gen = *c.gens[c.await_gen];
+            long g = c.await_gen;
             c.await_gen = -1;
-            bool b = co_await gen.next();
-            st.res = b ? gen.value() : -1;
+            if (c.gkind[g] == 1) {
+                generator<int> &gen = *c.gens[g];
+                bool b = co_await gen.next();
+                st.res = b ? gen.value() : -1;
+            } else {
+                generator<int, int> &gen = *c.gens2[g];
+                bool b = co_await gen.next(c.garg);
+                st.res = b ? gen.value() : -1;
+            }
         }
         emit(c, st);
     }
